@@ -33,7 +33,7 @@ def main():
     results = {}
     try:
         for p in props:
-            cmd = ["/verif/check", p, "--tier", "quick", "--no-shrink"]
+            cmd = [os.path.join(os.path.dirname(os.path.dirname(os.path.abspath(__file__))), "check"), p, "--tier", "quick", "--no-shrink"]
             if cases:
                 cmd += ["--cases", cases]
             t0 = time.time()
